@@ -71,11 +71,12 @@ def uint_class(v: int) -> str:
 
 def sint_class(v: int) -> str:
     mag = abs(v)
+    tags = []
     if mag >= 128 and mag % 128 == 0:
-        return "low_septet_zero"
+        tags.append("low_septet_zero")
     if R.uintvar(mag)[0] & 0x40:
-        return "bit6_of_leading_septet"
-    return f"septets_{R.n_sint_septets(mag)}"
+        tags.append("bit6_of_leading_septet")
+    return "+".join(tags) if tags else f"septets_{R.n_sint_septets(mag)}"
 
 
 def _fraction_has_leading_zero_septet(f: int, p: int) -> bool:
@@ -87,14 +88,15 @@ def _fraction_has_leading_zero_septet(f: int, p: int) -> bool:
 
 
 def float_class(i: int, f: int, p: int, signed: bool) -> str:
-    """input class = the first root-cause class the value falls in (one tag, so that buckets follow root causes)"""
+    """input class by root-cause exposure: integer-part classes first (they dominate), else the fraction class"""
+    tags = []
     if i >= 128 and i % 128 == 0:
-        return "int_low_septet_zero"
+        tags.append("int_low_septet_zero")
     if signed and R.uintvar(i)[0] & 0x40:
-        return "int_bit6_of_leading_septet"
-    if _fraction_has_leading_zero_septet(f, p):
-        return "fraction_leading_zero_septet"
-    return "plain"
+        tags.append("int_bit6_of_leading_septet")
+    if not tags and _fraction_has_leading_zero_septet(f, p):
+        tags.append("fraction_leading_zero_septet")
+    return "+".join(tags) if tags else "plain"
 
 
 # ---------------------------------------------------------------------------------------------- oracles
